@@ -16,6 +16,7 @@ def fired(m):
     out = {}
     for p in PROPS:
         rep = Report(p, "quick", quiet=True)
+        rep.tree_changed = True
         try:
             importlib.import_module(f"sa.rules.{p.lower()}").run(m, rep)
             rep.finish()
